@@ -1,5 +1,8 @@
 """C03 -- generated equality is exact-class, field-wise ==.
 
+Per-field harness-only keys added in round 8: `keyKind` / `okeyKind` (which kind of callable the eq / order key is) and
+`ftype` / `tspell` (the field's declared type and how it is spelled).
+
 Case = the Lean `Attrs.C03.Case`:
   * fields with their eq/cmp/order/hash arguments and the scripted outcome of every comparison (raw, through
     the eq key and -- separately -- through the order key, which `==` must never use),
@@ -21,8 +24,11 @@ values answers -- independent of `==`; `excKind`: which exception a fault raises
 """
 from __future__ import annotations
 
+import enum
+import functools
 import itertools
 import json
+import operator
 import sys
 import threading
 import types
@@ -33,7 +39,12 @@ import attrs
 import c03_ir
 
 ID = "C03"
-RULE = ("40% of the cases define all their classes in a registered synthetic module whose globals bind `NotImplemented` and "
+TABLES = ["fn_determine_attrib_eq_order"]
+RULE = ("kind of callable of every eq / order key as a dimension (plain function, functools.partial, instance with __call__, "
+        "operator.methodcaller, a class, a bound method -- one object per field name and kind, told apart by identity in T3) and "
+        "declared type of every field as a dimension (none / bool / int / float / str / Enum / IntEnum / Flag / NoneType / object / "
+        "tuple / frozenset / a string annotation; spelled type= or as a class-body annotation; the values held are the scripted "
+        "objects whatever is declared); 40% of the cases define all their classes in a registered synthetic module whose globals bind `NotImplemented` and "
         "every `__attr_key_<name>` helper name to junk (attrs merges the class's module globals into the namespace of its "
         "generated methods); every such class is also a T3 script case (binding of NotImplemented / of each helper). field spelling and __init__ participation as a dimension (45% of the classes): private names, explicit aliases, "
         "init=False fields with no / a constant / a factory default whose values are put in place after construction "
@@ -67,6 +78,9 @@ TRUSTED = [
     "key helpers by binding); the IR has no form for anything else -- other text is `unknown` and reported as a broken tie",
 ]
 ASSUMPTIONS = [
+    "the kind of callable a key function is and the declared type of a field (keyKind, okeyKind, ftype, tspell) are varied "
+    "by the harness only: model and spec never read them, i.e. the expected results are those of a plain-function key on an "
+    "untyped field; fn_determine_attrib_eq_order (T1b) additionally ties the source text of that function to its model",
     "T3 identifies helper bindings by object identity with the harness's per-field key functions (one eq key and one order "
     "key function object per field name); the helper-name prefix is read from the source of _make_eq_script with ast",
     "CPython's attribute lookup of __eq__/__ne__ along the MRO, object.__ne__ (derives from the resolved __eq__) and the "
@@ -192,6 +206,15 @@ class S:
         self.k = self.KCLS(name, keyed, ne_keyed, h + 7, rp)
         self.ok = self.KOCLS(name, order_keyed, ne_keyed, h + 11, rp)
 
+    def _key(self):
+        """what operator.methodcaller('_key') -- a key function that is a callable instance -- returns"""
+        if self.kfault is not None:
+            raise self.kfault()
+        return self.k
+
+    def _okey(self):
+        return self.ok
+
     def __eq__(self, other):
         LOG.append(self.name)
         if self.fault is not None:
@@ -244,22 +267,72 @@ def _mk_okey(field):
     return okey_fn
 
 
-# one eq key function and one order key function PER FIELD NAME (distinct objects doing the same), so that the
-# binding of every helper global of a generated method can be told apart (T3)
-class _PerName(dict):
-    """name -> its own function object, made on first use (classes may have any number of fields)"""
+# one eq key callable and one order key callable PER FIELD NAME AND KIND OF CALLABLE (distinct objects doing the same),
+# so that the binding of every helper global of a generated method can be told apart (T3).  Kinds: a plain function, a
+# functools.partial, an instance of a class with __call__, an operator.methodcaller (callable instances that are
+# neither routines nor classes), a class (called like cmp_using() results), a bound method
+KEY_KINDS = ["fn", "partial", "obj", "caller", "cls", "bound"]
+_HELPER_REG: dict = {}      # id(callable) -> (role, field, callable)
 
-    def __init__(self, mk):
+
+def _key_impl(v):
+    if v.kfault is not None:
+        raise v.kfault()
+    return v.k
+
+
+def _okey_impl(v):
+    return v.ok
+
+
+class _CallObj:
+    """a key function that is an object with __call__"""
+
+    def __init__(self, impl):
+        self.impl = impl
+
+    def __call__(self, v):
+        return self.impl(v)
+
+    def method(self, v):
+        return self.impl(v)
+
+
+def _mk_callable(kind, impl, meth):
+    if kind == "partial":
+        return functools.partial(impl)
+    if kind == "obj":
+        return _CallObj(impl)
+    if kind == "caller":
+        return operator.methodcaller(meth)
+    if kind == "cls":
+        # a class used as key function: calling it answers the key result (like a cmp_using() class wraps the value)
+        return type("KeyCls", (object,), {"__new__": staticmethod(lambda cls, v, _impl=impl: _impl(v))})
+    if kind == "bound":
+        return _CallObj(impl).method
+    raise KeyError(kind)
+
+
+class _PerName(dict):
+    """name -> its own callable object, made on first use (classes may have any number of fields)"""
+
+    def __init__(self, mk, role):
         super().__init__()
-        self._mk = mk
+        self._mk, self._role = mk, role
 
     def __missing__(self, name):
         fn = self[name] = self._mk(name)
+        _HELPER_REG[id(fn)] = (self._role, name, fn)
         return fn
 
 
-KEY_FNS = _PerName(_mk_key)
-OKEY_FNS = _PerName(_mk_okey)
+KEY_FNS = _PerName(_mk_key, "eq")
+OKEY_FNS = _PerName(_mk_okey, "order")
+KEY_TABLES = {"fn": KEY_FNS}
+OKEY_TABLES = {"fn": OKEY_FNS}
+for _k in KEY_KINDS[1:]:
+    KEY_TABLES[_k] = _PerName(lambda name, _k=_k: _mk_callable(_k, _key_impl, "_key"), "eq")
+    OKEY_TABLES[_k] = _PerName(lambda name, _k=_k: _mk_callable(_k, _okey_impl, "_okey"), "order")
 
 
 def field_name(i):
@@ -269,11 +342,9 @@ def field_name(i):
 
 def classify_helper(obj):
     """what a helper global of a generated method is bound to, in the IR's terms"""
-    role, field = getattr(obj, "role", None), getattr(obj, "field", None)
-    if role == "eq" and isinstance(field, str) and KEY_FNS.get(field) is obj:
-        return {"eqKey": {"field": field}}
-    if role == "order" and isinstance(field, str) and OKEY_FNS.get(field) is obj:
-        return {"orderKey": {"field": field}}
+    got = _HELPER_REG.get(id(obj))
+    if got is not None and got[2] is obj:
+        return {"eqKey" if got[0] == "eq" else "orderKey": {"field": got[1]}}
     return "other"
 
 
@@ -321,16 +392,20 @@ _BUILDS = [0]
 def _field_kwargs(f, arg=None):
     arg = arg or _ARG
 
-    def pick(table, a):
+    def pick(table, a, tables=None, kind="fn"):
         v = table[a]
-        return v[f["name"]] if isinstance(v, dict) else v      # _PerName makes the function on first use
+        if isinstance(v, dict):      # _PerName makes the callable on first use; which kind of callable: harness-only
+            return (tables[kind] if tables and v is tables["fn"] else v)[f["name"]]
+        return v
     kw = {}
     if f["cmp"] != "unset":
-        kw["cmp"] = pick(arg, f["cmp"])
+        kw["cmp"] = pick(arg, f["cmp"], KEY_TABLES, f.get("keyKind", "fn"))
     if f["eq"] != "unset":
-        kw["eq"] = pick(arg, f["eq"])
+        kw["eq"] = pick(arg, f["eq"], KEY_TABLES, f.get("keyKind", "fn"))
     if f.get("order", "unset") != "unset":
-        kw["order"] = pick(_OARG, f["order"])
+        kw["order"] = pick(_OARG, f["order"], OKEY_TABLES, f.get("okeyKind", "fn"))
+    if f.get("ftype", "none") != "none" and f.get("tspell", "type=") == "type=":
+        kw["type"] = FIELD_TYPES[f["ftype"]]
     h = f.get("hash", "unset")
     if h != "unset":
         kw["hash"] = h == "t"
@@ -344,6 +419,31 @@ def _field_kwargs(f, arg=None):
     if f.get("alias"):
         kw["alias"] = f["alias"]
     return kw
+
+
+class _Level(enum.IntEnum):
+    LOW = 1
+    HIGH = 2
+
+
+class _Color(enum.Enum):
+    RED = "red"
+
+
+class _Flagged(enum.Flag):
+    A = 1
+
+
+# declared field types (attrs never enforces them: the values are the scripted objects whatever is declared)
+FIELD_TYPES = {"bool": bool, "int": int, "float": float, "str": str, "enum": _Color, "intenum": _Level, "flag": _Flagged,
+               "nonetype": type(None), "object": object, "optional_bool": "bool | None", "tuple": tuple, "frozenset": frozenset}
+
+
+def _annotations(fields):
+    """class-body `__annotations__` for the fields whose type is spelled as an annotation"""
+    anns = {f["name"]: FIELD_TYPES[f["ftype"]] for f in fields
+            if f.get("ftype", "none") != "none" and f.get("tspell", "type=") == "ann"}
+    return {"__annotations__": anns} if anns else {}
 
 
 class _Default:
@@ -618,7 +718,8 @@ def _deco(api):
 def build(case):
     cfg = case.get("cfg", {})
     key = (tuple((f["name"], f["cmp"], f["eq"], f.get("order", "unset"), f.get("hash", "unset"), f.get("alias"),
-                  f.get("init", True), f.get("dflt", "none")) for f in case["fields"]),
+                  f.get("init", True), f.get("dflt", "none"), f.get("keyKind", "fn"), f.get("okeyKind", "fn"),
+                  f.get("ftype", "none"), f.get("tspell", "type=")) for f in case["fields"]),
            case["rhs"],
            json.dumps(cfg, sort_keys=True))
     got = _CLASS_CACHE.get(key)
@@ -652,9 +753,13 @@ def build(case):
             body["__module__"] = HOSTILE.__name__
         return M0(name, bases, body)
 
-    def mk(f):
+    def mk(f, force_type=False):
         # `field()` of the next-gen API has no cmp=; attr.ib inside define is allowed
-        return attr.ib(**_field_kwargs(f))
+        return attr.ib(**_field_kwargs(dict(f, tspell="type=") if force_type else f))
+
+    def fbody(fields):
+        """class body: the attr.ib()s, plus annotations for the fields whose declared type is spelled that way"""
+        return dict({f["name"]: mk(f) for f in fields}, **_annotations(fields))
 
     # decoy classes of the same layout (names, keyed/unkeyed pattern, options, qualnames) with a different key
     # function are defined first: whatever attrs memoises per layout must not leak into the real classes
@@ -683,9 +788,9 @@ def build(case):
     common = {k: v for k, v in cls_kw.items() if k in ("slots", "frozen", "auto_exc")}
     bdeco = attr.s if api == "make_class" else deco
     if bm == "gen":
-        Base = bdeco(**cls_kw)(M("Base", (Root,), {f["name"]: mk(f) for f in base_fields}))
+        Base = bdeco(**cls_kw)(M("Base", (Root,), fbody(base_fields)))
     elif bm == "user":
-        body = {f["name"]: mk(f) for f in base_fields}
+        body = fbody(base_fields)
         body.update(_scripted_methods(cfg.get("base_own"), "BASE"))
         keep = {"auto_detect": True} if cfg.get("base_keep") == "auto_detect" else {"eq": False}
         Base = bdeco(**common, **keep)(M("Base", (Root,), body))
@@ -693,10 +798,10 @@ def build(case):
         Base = Root
     # ---- C
     if api == "make_class":
-        C = (HOSTILE.make_class if hostile else attr.make_class)("C", {f["name"]: mk(f) for f in own_fields}, bases=(Base,),
+        C = (HOSTILE.make_class if hostile else attr.make_class)("C", {f["name"]: mk(f, True) for f in own_fields}, bases=(Base,),
                             class_body=_scripted_methods(cfg.get("own"), "OWN") or None, **cls_kw)
     else:
-        body = {f["name"]: mk(f) for f in own_fields}
+        body = fbody(own_fields)
         body.update(_scripted_methods(cfg.get("own"), "OWN"))
         C = deco(**cls_kw)(M("C", (Base,), body))
     # ---- subclass
@@ -715,7 +820,7 @@ def build(case):
     if case["rhs"] == "foreign":
         fk = cfg.get("foreign_kind", "twin")
         if fk == "twin":       # unrelated twin with the same name and fields
-            F = bdeco(**cls_kw)(M("C", (object,), {f["name"]: mk(f) for f in case["fields"]}))
+            F = bdeco(**cls_kw)(M("C", (object,), fbody(case["fields"])))
         elif fk == "user":
             F = M("Foreign", (object,), _scripted_methods(cfg.get("foreign_own"), "FOREIGN"))
         else:
@@ -961,6 +1066,11 @@ def dist(case, obs):
         "faults": "+".join(sorted(f"{f['fault']}/{f.get('excKind')}" for f in case["fields"] if f.get("fault", "none") != "none")) or "-",
         "unhashable_values": sum(1 for f in case["fields"] if f.get("unhashable")),
         "keys": sum(1 for f in case["fields"] if "key" in (f["cmp"], f["eq"])),
+        "key_kinds": "+".join(sorted({f.get("keyKind", "fn") for f in case["fields"] if "key" in (f["cmp"], f["eq"])})) or "-",
+        "okey_kinds": "+".join(sorted({f.get("okeyKind", "fn") for f in case["fields"] if f.get("order") == "key"})) or "-",
+        "declared_type_of_first_field": (f"{case['fields'][0].get('ftype', 'none')}/{case['fields'][0].get('tspell', 'type=')}"
+                                         if case["fields"] else "-"),
+        "typed_fields": sum(1 for f in case["fields"] if f.get("ftype", "none") != "none"),
         "root": cfg.get("root"),
         "base_mode": cfg.get("base_mode"),
         "own_methods": "+".join(k for k in ("eq", "ne") if own.get(k)) or "-",
@@ -1082,6 +1192,12 @@ def _dress(rng, f):
     f["reprEq"] = f["sameObj"] or rng.random() < 0.5
     f["neRaw"] = rng.choice(OUTCOMES)
     f["neKeyed"] = rng.choice(OUTCOMES)
+    # which kind of callable a key function is (function / partial / object with __call__ / methodcaller / class /
+    # bound method) and the field's declared type (type= or annotation): harness-only, the model reads neither
+    f["keyKind"] = rng.choice(KEY_KINDS) if rng.random() < 0.6 else "fn"
+    f["okeyKind"] = rng.choice(KEY_KINDS) if rng.random() < 0.5 else "fn"
+    f["ftype"] = rng.choice(sorted(FIELD_TYPES)) if rng.random() < 0.5 else "none"
+    f["tspell"] = rng.choice(["type=", "ann"])
     return f
 
 
@@ -1239,12 +1355,15 @@ def shrink(case):
             for n in hist[k]:
                 yield from _emit(dict(base, hist=dict(hist, **{k: [m for m in hist[k] if m != n]})))
     for i, f in enumerate(fs):
-        for k, v in (("alias", None), ("dflt", "none"), ("init", True),
-                     ("fault", "none"), ("excKind", "user"), ("unhashable", False), ("reprEq", True),
+        for k, v in (("alias", None), ("dflt", "none"), ("init", True), ("keyKind", "fn"), ("okeyKind", "fn"),
+                     ("ftype", "none"), ("tspell", "type="), ("fault", "none"), ("excKind", "user"), ("unhashable", False), ("reprEq", True),
                      ("cmp", "unset"), ("eq", "unset"), ("order", "unset"), ("orderKeyed", "T"), ("sameObj", False), ("raw", "T"), ("keyed", "T"),
                      ("hash", "unset"), ("hashDiffers", False), ("neRaw", "T"), ("neKeyed", "T")):
             if f.get(k) != v:
                 yield from _emit(dict(base, fields=fs[:i] + [dict(f, **{k: v})] + fs[i + 1:]))
+
+
+_CLASS_KEYS = ("keyKind", "okeyKind", "ftype", "tspell")      # per-field harness-only keys that shape the class
 
 
 def neighbours(case, rng):
@@ -1256,13 +1375,15 @@ def neighbours(case, rng):
             for f in base["fields"]:
                 g = _dress(rng, dict(f, raw=rng.choice(OUTCOMES), keyed=rng.choice(OUTCOMES), sameObj=rng.random() < 0.3))
                 g["hash"], g["unhashable"] = f.get("hash", "unset"), False
+                for k in _CLASS_KEYS:
+                    g[k] = f.get(k, g[k])
                 fs.append(g)
             rhs = rng.choice(RHS + ["same", "same", "same"])
             yield from _emit(dict(base, fields=fs, rhs=rhs, hist=dict(BASE_HIST)))
         # all fields equal but one self-unequal value, shared by identity / x compared with itself; one falsy field
         n = len(base["fields"])
         plain = [dict(_dress(rng, dict(f, raw="T", keyed="T", sameObj=False)), hash=f.get("hash", "unset"),
-                      unhashable=False, fault="none") for f in base["fields"]]
+                      unhashable=False, fault="none", **{k: f[k] for k in _CLASS_KEYS if k in f}) for f in base["fields"]]
         for i in sorted({0, n // 2, n - 1} | set(rng.sample(range(n), min(n, 3)))) if n else []:
             for same_obj, rhs, out in ((True, "same", "F"), (True, "identical", "F"), (False, "same", "falsy"),
                                        (False, "identical", "truthy")):
